@@ -27,7 +27,7 @@ def worker(ctx, job):
     from vf.flo import runner, monitors, refint, compare
     for seed, fi in job["items"]:
         rng = random.Random(seed)
-        prog = gen.gen_program(rng, gen.feat(**FEATS[fi]))
+        prog = gen.gen_program(rng, gen.pickfeat(FEATS, fi))
         text = P.render(prog)
         cap = prog["ticks"] + 12
         res = runner.run_text(text, maxticks=cap, post=True, watch=gen.WATCH)
@@ -62,8 +62,8 @@ def worker(ctx, job):
 
 
 def run(ctx):
-    n = ctx.pick(400, 6000)
-    items = [(ctx.rng.randrange(1 << 30), i % len(FEATS)) for i in range(n)]
+    n = ctx.pick(400, 24000)
+    items = [(ctx.rng.randrange(1 << 30), i % gen.nfeats(FEATS, ctx)) for i in range(n)]
     ctx.shard([{"items": items[i::16]} for i in range(16)], timeout=ctx.pick(300, 1500))
     ctx.floor("attempts_refused", 50)
     ctx.floor("attempts_admitted", 50)
